@@ -93,7 +93,7 @@ extern "C" int rename(const char* a, const char* b) {
 }
 
 // ---- scenarios -----------------------------------------------------------------------------------
-struct Rec { uint16_t txid; size_t name_len; };
+struct Rec { uint16_t txid; size_t name_len; int asn_len = -1; };
 struct ScOp { int kind; std::vector<Rec> recs; int name = 0; bool exp = false; };   // 0 buffer, 1 write_block, 2 rotate
 struct Scenario {
   int comp = 0; int kind = 0;     // kind 0 name, 1 fd
@@ -102,12 +102,15 @@ struct Scenario {
   bool final_write = true;
   int first_name = 0;
   std::vector<int> preexisting;   // names that exist (complete older outputs) before the run
+  int name_kind[3] = {0, 0, 0};   // per name: 0 ordinary, 1 last path component 251..255 characters long, 2 '<name><suffix>.part' is occupied by a directory
   std::string show() const {
     std::ostringstream os;
     os << (comp == 0 ? "plain" : comp == 1 ? "gzip" : "xz") << (kind ? " fd" : " name") << " max=" << max_items << " first=n" << first_name << " pre={";
     for (int p : preexisting) os << "n" << p << " ";
-    os << "}:";
-    for (auto& o : ops) { if (o.kind == 0) { os << " buf("; for (auto& r : o.recs) os << r.name_len << ","; os << ")"; } else if (o.kind == 1) os << " write_block"; else os << " rotate(n" << o.name << ",export=" << o.exp << ")"; }
+    os << "}";
+    for (int n = 0; n < 3; n++) if (name_kind[n]) os << " n" << n << (name_kind[n] == 1 ? "=long-name" : "=part-blocked");
+    os << ":";
+    for (auto& o : ops) { if (o.kind == 0) { os << " buf("; for (auto& r : o.recs) { os << r.name_len; if (r.asn_len >= 0) os << "+asn" << r.asn_len; os << ","; } os << ")"; } else if (o.kind == 1) os << " write_block"; else os << " rotate(n" << o.name << ",export=" << o.exp << ")"; }
     os << (final_write ? " write_block" : "") << " destroy";
     return os.str();
   }
@@ -119,6 +122,7 @@ static Scenario gen_scenario(Chooser& c, bool allow_fd, unsigned size) {
   s.max_items = c.pick<uint64_t>({3, 1, 2, 10000});
   s.first_name = (int)c.range(0, 2);
   for (int n = 0; n < 3; n++) if (c.range(0, 3) == 0) s.preexisting.push_back(n);
+  if (!allow_fd) for (int n = 0; n < 3; n++) { uint64_t k = c.range(0, 7); s.name_kind[n] = k == 6 ? 1 : k == 7 ? 2 : 0; }
   unsigned nops = (unsigned)c.range(1, 3 + size / 6);
   uint16_t tx = 1;
   unsigned rots = 0;
@@ -143,6 +147,7 @@ static M::Fields rec_fields(const Rec& r) {
   std::string nm(r.name_len, 'n');
   for (size_t i = 0; i < nm.size(); i++) nm[i] = (char)('a' + (i * 7 + r.txid) % 26);
   f[M::Q_QNAME] = M::Val::Bytes(nm);
+  if (r.asn_len >= 0) { std::string a(r.asn_len, 'a'); for (size_t i = 0; i < a.size(); i++) a[i] = (char)('A' + (i * 3 + r.txid) % 26); f[M::Q_ASN] = M::Val::Text(a); }
   return f;
 }
 
@@ -155,9 +160,16 @@ struct RunResult {
   std::vector<uint16_t> retained;              // model: txids still buffered when the first exception was thrown
   size_t counters_after_throw = 0;
   bool recovery_rotate_ok = false, recovery_done = false;
+  bool ctor_failed = false;
   std::string recovery_exc, recovery_path;
 };
-static std::string name_path(const std::string& dir, int n, int comp) { return dir + "/n" + std::to_string(n) + EXT[comp]; }
+// base name (without suffix) of output name n; long names make '<name><suffix>' fit NAME_MAX while '<name><suffix>.part' does not
+static std::string name_base(const std::string& dir, const Scenario& s, int n) {
+  std::string b = "n" + std::to_string(n);
+  if (s.name_kind[n] == 1) b += std::string(253 - b.size() - strlen(EXT[s.comp]), 'L');
+  return dir + "/" + b;
+}
+static std::string name_path(const std::string& dir, const Scenario& s, int n) { return name_base(dir, s, n) + EXT[s.comp]; }
 
 // Runs the scenario in `dir`.  snaps: copy every closed output to dir/snaps (only the fault-free reference run).
 // recover: after the first exception run the documented recovery and stop.
@@ -187,8 +199,16 @@ static RunResult run_scenario(const Scenario& s, const std::string& dir, bool sn
   std::unique_ptr<CDNS::CdnsExporter> ex;
   std::string p0;
   g_cur_out = 0;
-  if (s.kind == 0) { p0 = name_path(dir, s.first_name, s.comp); ex.reset(new CDNS::CdnsExporter(fp, dir + "/n" + std::to_string(s.first_name), (CDNS::CborOutputCompression)s.comp)); }
-  else { int fd = open_fd(p0); ex.reset(new CDNS::CdnsExporter(fp, fd, (CDNS::CborOutputCompression)s.comp)); }
+  try {
+    if (s.kind == 0) { p0 = name_path(dir, s, s.first_name); ex.reset(new CDNS::CdnsExporter(fp, name_base(dir, s, s.first_name), (CDNS::CborOutputCompression)s.comp)); }
+    else { int fd = open_fd(p0); ex.reset(new CDNS::CdnsExporter(fp, fd, (CDNS::CborOutputCompression)s.comp)); }
+  } catch (const std::exception& e) {
+    // an output that cannot be opened is refused by the constructor: nothing else happens in this scenario
+    CallLog cl; cl.what = "constructor"; cl.threw = true; cl.exc = e.what();
+    R.calls.push_back(cl);
+    R.ctor_failed = true;
+    return R;
+  }
   R.out_paths.push_back(p0);
   R.closed_by_call.push_back(-1);
   bool stop = false;
@@ -223,7 +243,7 @@ static RunResult run_scenario(const Scenario& s, const std::string& dir, bool sn
       std::string np;
       int closing = (int)R.out_paths.size() - 1;
       bool ok;
-      if (s.kind == 0) { np = name_path(dir, o.name, s.comp); std::string base = dir + "/n" + std::to_string(o.name); ok = call("rotate_output", [&] { ex->rotate_output(base, o.exp); }); }
+      if (s.kind == 0) { np = name_path(dir, s, o.name); std::string base = name_base(dir, s, o.name); ok = call("rotate_output", [&] { ex->rotate_output(base, o.exp); }); }
       else { int fd = open_fd(np); ok = call("rotate_output", [&] { ex->rotate_output(fd, o.exp); }); }
       if (ok) {
         if (o.exp) pending.clear();
@@ -262,12 +282,13 @@ static void prepare_dir(const std::string& dir, const Scenario& s, std::map<std:
   ::mkdir((dir + "/snaps").c_str(), 0755);
   for (const char* sub : {"/snaps", ""}) {
     DIR* d = opendir((dir + sub).c_str());
-    if (d) { while (dirent* e = readdir(d)) { std::string n = e->d_name; if (n != "." && n != ".." && n != "snaps") ::unlink((dir + sub + "/" + n).c_str()); } closedir(d); }
+    if (d) { while (dirent* e = readdir(d)) { std::string n = e->d_name; if (n != "." && n != ".." && n != "snaps") { if (::unlink((dir + sub + "/" + n).c_str()) != 0) ::rmdir((dir + sub + "/" + n).c_str()); } } closedir(d); }
   }
+  for (int n = 0; n < 3; n++) if (s.name_kind[n] == 2) ::mkdir((name_path(dir, s, n) + ".part").c_str(), 0755);
   for (int n : s.preexisting) {
     std::string content = "complete older output n" + std::to_string(n) + " (left intact from before)";
-    write_file(name_path(dir, n, s.comp), content);
-    allowed[std::string("n") + std::to_string(n) + EXT[s.comp]].insert(content);
+    write_file(name_path(dir, s, n), content);
+    allowed[name_path(dir, s, n).substr(dir.size() + 1)].insert(content);
   }
 }
 static std::vector<std::string> list_dir(const std::string& dir) {
@@ -369,9 +390,31 @@ static std::vector<uint16_t> txids_of(const std::string& plain, bool& valid, std
   for (auto& b : fm.blocks) for (auto& q : b.qrs) { auto it = q.find(M::Q_TXID); if (it != q.end()) v.push_back((uint16_t)it->second.i); }
   return v;
 }
+static void c16_run(Case& cs, const Scenario& s);
 static void c16_faults(Case& cs) {
+  Scenario s = gen_scenario(cs.c, true, cs.size);
+  c16_run(cs, s);
+}
+// exhaustive alignment sweep: one block whose last item is a text string of every length, closed by rotate_output(fd, false):
+// the encoder buffer is exactly full at the rotation for some length, which makes write_break() itself issue a write
+static void c16_align(Case& cs) {
   Chooser& c = cs.c;
-  Scenario s = gen_scenario(c, true, cs.size);
+  Scenario s;
+  size_t L = (size_t)c.range(0, 2250);        // first choice = sharding dimension
+  int variant = (int)c.range(0, 2);           // what ends the block: asn text / nothing but integers / asn of 24 bytes and a long name
+  s.comp = 0; s.kind = 1; s.max_items = 10000;
+  ScOp b; b.kind = 0;
+  Rec r; r.txid = 7; r.name_len = variant == 2 ? L : 10; r.asn_len = variant == 0 ? (int)L : variant == 2 ? 24 : -1;
+  if (variant == 1) r.name_len = L;
+  b.recs.push_back(r);
+  s.ops.push_back(b);
+  ScOp w; w.kind = 1; s.ops.push_back(w);
+  ScOp rot; rot.kind = 2; rot.name = 1; rot.exp = false; s.ops.push_back(rot);
+  s.final_write = false;
+  c16_run(cs, s);
+  cs.st.cls("aligned_scenario");
+}
+static void c16_run(Case& cs, const Scenario& s) {
   std::string desc = s.show();
   cs.sample = desc;
   if (cs.replay) printf("%s\n", desc.c_str());
@@ -488,5 +531,6 @@ int main(int argc, char** argv) {
   Registry r;
   r.add("c15_crash", c15_crash);
   r.add("c16_faults", c16_faults);
+  r.add("c16_align", c16_align);
   return harness_main(argc, argv, r);
 }
